@@ -380,7 +380,8 @@ class E1Model:
         src = sc["components"][sci]
         if src["kind"] == "sim":
             init = src["start"]
-            return LinkModel(ln["chain"], init, source_pubs=lambda upto, a=sci, b=soi: self.pubs(a, b, upto))
+            return LinkModel(ln["chain"], init, source_pubs=lambda upto, a=sci, b=soi: self.pubs(a, b, upto),
+                             now_newest=lambda a=sci, b=soi: self._newest(a, b))
         if src["kind"] == "static":
             # one publication, served unchanged for every request time (chains are pass-through only)
             v0 = float(src["outputs"][soi]["base"])
@@ -450,6 +451,12 @@ class E1Model:
         return None
 
     initial_mode = False
+    newest_cb = None        # set by the monitor: newest publication tick of a stub output right now
+
+    def _newest(self, ci, oi):
+        if self.newest_cb is None:
+            raise Unknown("delay_push depends on publication timing")
+        return self.newest_cb(ci, oi)
 
     def expect(self, ci, ii, t, initial=False):
         """acceptable values for a pull of input ii of component ci at tick t"""
